@@ -154,7 +154,7 @@ theorem varWords_cases_spec (env : Env) (ref : Str → VarRef) (w : Word) (name 
 /-! ### 3. later objects, the environment, termination — on the specification -/
 
 /-- **Later objects are irrelevant.**  Two well-formed documents with the same words (and the same
-    id `n`) at position `pos` that agree on everything before that definition — `pruneList n` cuts, at
+    id `n`) at position `pos` that agree on everything before that definition — `pruneBeforeList n` cuts, at
     every depth, everything from the first object numbered `≥ n` onwards: the definition itself and
     all that follows it in the source — give the definition the same value.  So everything at or after
     the referencing definition can be changed or deleted. -/
@@ -162,7 +162,7 @@ theorem later_objects_irrelevant_spec (env : Env) (root1 root2 : List Obj) (hd1 
     (hd2 : DocIds root2) (pos : List Nat) (diff : Bool) (m1 m2 : Meta) (ws : List Word) (n : Nat)
     (h1 : objAt root1 pos = some (.defn m1 ws)) (h2 : objAt root2 pos = some (.defn m2 ws))
     (hid1 : m1.id = some n) (hid2 : m2.id = some n)
-    (hp : pruneList n root1 = pruneList n root2) :
+    (hp : pruneBeforeList n root1 = pruneBeforeList n root2) :
     denote env root1 pos diff = denote env root2 pos diff :=
   later_irrelevant_vs env root1 root2 hd1 hd2 pos diff m1 m2 ws n h1 h2 hid1 hid2 hp
 
